@@ -311,7 +311,10 @@ type Step struct {
 
 // Do runs one request and fills in the reference model's view of it.
 // before may be nil (a snapshot is taken).
-func (rn *Runner) Do(q *gen.Request, before *Snapshot) *Step {
+func (rn *Runner) Do(q *gen.Request, before *Snapshot) *Step { return rn.DoWith(q, before, nil) }
+
+// DoWith is Do with a callback that runs right after Update returned (before the after-snapshot is read).
+func (rn *Runner) DoWith(q *gen.Request, before *Snapshot, afterUpdate func()) *Step {
 	if before == nil {
 		before = rn.Snap()
 	}
@@ -332,6 +335,9 @@ func (rn *Runner) Do(q *gen.Request, before *Snapshot) *Step {
 	st.Ambiguous = q.Ambiguous || (st.Authentic && (q.CPKind == "mutated" || q.CPKind == "garbage"))
 
 	st.Ret, st.Err = rn.W.Update(context.Background(), q.LogID, q.OldSize, q.CP, q.Proof)
+	if afterUpdate != nil {
+		afterUpdate()
+	}
 	st.After = rn.Snap()
 	// The model follows the implementation's stored state (read back), not its
 	// own prediction, so one divergence is reported once and not at every later step.
